@@ -69,7 +69,7 @@ class VirtualFile(object):
             self.file_exists = True
             self.source_file.read_file()
             self.coco_file_list, virtual_file_type = self.get_coco_files()
-            _verif.emit("Open", exists=True, sniffed=virtual_file_type.name, files=len(self.coco_file_list),
+            _verif.emit("Open", name=self.source_file.get_file_name(), exists=True, sniffed=virtual_file_type.name, files=len(self.coco_file_list),
                         wanted=self.virtual_file_type.name if self.virtual_file_type else "")
             if self.virtual_file_type and self.virtual_file_type != virtual_file_type:
                 raise VirtualFileValidationError("[{}] is not of type {}".format(
@@ -85,7 +85,7 @@ class VirtualFile(object):
             cassette_file = CassetteFile()
             cassette_file.add_files(self.coco_file_list)
             if self.file_exists and not append_mode:
-                _verif.emit("Save", kind=self.virtual_file_type.name, exists=self.file_exists, append=append_mode, wrote=False)
+                _verif.emit("Save", name=self.source_file.get_file_name(), kind=self.virtual_file_type.name, exists=self.file_exists, append=append_mode, wrote=False)
                 raise FileExistsError(
                     "Target file [{}] already exists, use --append to overwrite".format(
                         self.source_file.get_file_name()
@@ -93,13 +93,13 @@ class VirtualFile(object):
                 )
             self.source_file.set_buffer(cassette_file.get_buffer())
             self.source_file.write_file()
-            _verif.emit("Save", kind=self.virtual_file_type.name, exists=self.file_exists, append=append_mode, wrote=True)
+            _verif.emit("Save", name=self.source_file.get_file_name(), kind=self.virtual_file_type.name, exists=self.file_exists, append=append_mode, wrote=True)
 
         if self.virtual_file_type == VirtualFileType.BINARY:
             binary_file = BinaryFile()
             binary_file.add_files(self.coco_file_list)
             if self.file_exists and not append_mode:
-                _verif.emit("Save", kind=self.virtual_file_type.name, exists=self.file_exists, append=append_mode, wrote=False)
+                _verif.emit("Save", name=self.source_file.get_file_name(), kind=self.virtual_file_type.name, exists=self.file_exists, append=append_mode, wrote=False)
                 raise FileExistsError(
                     "Target file [{}] already exists, use --append to overwrite".format(
                         self.source_file.get_file_name()
@@ -107,13 +107,13 @@ class VirtualFile(object):
                 )
             self.source_file.set_buffer(binary_file.get_buffer())
             self.source_file.write_file()
-            _verif.emit("Save", kind=self.virtual_file_type.name, exists=self.file_exists, append=append_mode, wrote=True)
+            _verif.emit("Save", name=self.source_file.get_file_name(), kind=self.virtual_file_type.name, exists=self.file_exists, append=append_mode, wrote=True)
 
         if self.virtual_file_type == VirtualFileType.DISK:
             disk_file = DiskFile()
             disk_file.add_files(self.coco_file_list)
             if self.file_exists and not append_mode:
-                _verif.emit("Save", kind=self.virtual_file_type.name, exists=self.file_exists, append=append_mode, wrote=False)
+                _verif.emit("Save", name=self.source_file.get_file_name(), kind=self.virtual_file_type.name, exists=self.file_exists, append=append_mode, wrote=False)
                 raise FileExistsError(
                     "Target file [{}] already exists, use --append to overwrite".format(
                         self.source_file.get_file_name()
@@ -121,7 +121,7 @@ class VirtualFile(object):
                 )
             self.source_file.set_buffer(disk_file.get_buffer())
             self.source_file.write_file()
-            _verif.emit("Save", kind=self.virtual_file_type.name, exists=self.file_exists, append=append_mode, wrote=True)
+            _verif.emit("Save", name=self.source_file.get_file_name(), kind=self.virtual_file_type.name, exists=self.file_exists, append=append_mode, wrote=True)
 
     def add_coco_file(self, coco_file):
         """
